@@ -160,6 +160,9 @@ func ParseSm2PublicKey(der []byte) (*sm2.PublicKey, error) {
 	}
 	curve := sm2.P256Sm2()
 	x, y := elliptic.Unmarshal(curve, pubkey.BitString.Bytes)
+	if x == nil {
+		return nil, errors.New("x509: failed to unmarshal SM2 curve point")
+	}
 	pub := sm2.PublicKey{
 		Curve: curve,
 		X:     x,
@@ -268,6 +271,12 @@ func ParsePKCS8EcryptedPrivateKey(der, pwd []byte) (*sm2.PrivateKey, error) {
 	block, err := aes.NewCipher(key)
 	if err != nil {
 		return nil, err
+	}
+	if len(iv) != block.BlockSize() {
+		return nil, errors.New("x509: invalid IV length in PBES2 parameters")
+	}
+	if len(encryptedKey) == 0 || len(encryptedKey)%block.BlockSize() != 0 {
+		return nil, errors.New("x509: encrypted key is not a multiple of the block size")
 	}
 	mode := cipher.NewCBCDecrypter(block, iv)
 	mode.CryptBlocks(encryptedKey, encryptedKey)
